@@ -14,7 +14,7 @@ from vf.checks import c11
 
 
 def name_of(cfg):
-    return (f"{cfg.get('gmodel', 'gpt2l')}/dp{cfg['dp']}xmp{cfg['mp']}/save@{cfg['c']}/"
+    return (f"{cfg.get('gmodel', 'gpt2l')}/pp{cfg.get('pp', 1)}xdp{cfg['dp']}xmp{cfg['mp']}/fdt={cfg['kfac'].get('factor_dtype')}/save@{cfg['c']}/"
             f"{'dir' if cfg.get('dir') else 'mem'}/inverses="
             f"{cfg['compute']}/bias={cfg.get('bias', True)}/F="
             f"{cfg['kfac'].get('factor_update_steps', 1)}/I="
@@ -94,7 +94,24 @@ def check(cfg, w, stats=None):
                       f'{evs[r]["steps_after"]} != {c}'))
     if v:
         return v
-    # (3) training resumes as in C09: against the unsharded reference
+    # (3) training resumes as in C09
+    if cfg['kfac'].get('factor_dtype'):
+        # low/high precision factors: compared with the uninterrupted run
+        # of the same configuration under the same schedule (both intervals
+        # are 1 here, so everything is recomputed on the next step)
+        un = cfg['_uninterrupted']
+        for r in range(n):
+            for t in range(c, cfg['T']):
+                ev, eu = w.results[r][t + 1], un[r][t]
+                for pn, g in ev['P'].items():
+                    e = G.K.rel_err(g.to(torch.float64),
+                                    eu['P'][pn].to(torch.float64))
+                    if not e <= 1e-6:
+                        v.append(('resume-differs', f'rank{r} step {t}: '
+                                  f'{pn} differs from the uninterrupted run '
+                                  f'by {e:.2e}'))
+                        return v
+        return v
     orc = c11.oracle_for(cfg, stats)
     res = orc(w)
     if res and cfg['mp'] > 1 and c > 0:
@@ -110,6 +127,94 @@ def check(cfg, w, stats=None):
     return [('resume-' + k, t) for k, t in res]
 
 
+def _strip(d, pre, own_only=True):
+    out = {}
+    for k, v in d.items():
+        if pre and k.startswith(pre):
+            out[k[len(pre):]] = v
+        elif not pre and not k.startswith('p'):
+            out[k] = v
+        elif not own_only:
+            out[k] = v
+    return out
+
+
+def stage_view(cfg, w, s):
+    """The ranks of pipeline stage s seen as a pipe=1 world: layer names
+    without the stage prefix, worker ranks relative to the stage."""
+    import types
+
+    m = cfg['dp'] * cfg['mp']
+    pre = G.stage_prefix(s)
+    off = s * m
+    results = []
+    for r in range(off, off + m):
+        rec = []
+        for ev in w.results[r]:
+            e = dict(ev)
+            for key in ('P', 'D', 'factors_here', 'after_load'):
+                if key in e:
+                    e[key] = _strip(e[key], pre)
+            for key in ('inv_worker', 'factor_worker'):
+                if key in e:
+                    e[key] = {k: v - off for k, v in
+                              _strip(e[key], pre).items()}
+            if 'saved' in e and 'layers' in e['saved']:
+                e['saved'] = dict(e['saved'],
+                                  layers=_strip(e['saved']['layers'], pre))
+            if isinstance(e.get('files'), dict):
+                e['files'] = _strip(e['files'], pre)
+            rec.append(e)
+        results.append(rec)
+    return types.SimpleNamespace(n=m, results=results,
+                                 trace=w.trace[off:off + m])
+
+
+def check_all_stages(cfg, w):
+    """Every rank's saved state holds every layer of EVERY stage exactly as
+    held by that layer's inverse worker."""
+    v = []
+    n, c = w.n, cfg['c']
+    evs = [w.results[r][c] for r in range(n)]
+    inv_all = {}
+    for e in evs:
+        inv_all.update(e['inv_worker'])
+    for name, iw in sorted(inv_all.items()):
+        held = evs[iw]['factors_here'].get(name)
+        if held is None or held['A'] is None or held['G'] is None:
+            continue
+        for r in range(n):
+            src = evs[r].get('files', {}) if cfg.get('dir') else \
+                evs[r]['saved'].get('layers', {})
+            st = src.get(name)
+            if st is None:
+                v.append(('missing-layer', f'rank{r}: state has no entry '
+                          f'for {name} (held by rank {iw} of another or the '
+                          'same pipeline stage)'))
+                continue
+            for k in 'AG':
+                if st[k] is None or not torch.equal(st[k], held[k]):
+                    v.append(('saved-factor', f'rank{r}: saved {name}.{k} '
+                              f'differs from the factor held by inverse '
+                              f'worker {iw}'))
+        if v:
+            return v
+    return v
+
+
+def check_world(cfg, w, stats=None):
+    pp = cfg.get('pp', 1)
+    if pp == 1:
+        return check(cfg, w, stats)
+    vs = check_all_stages(cfg, w)
+    for s in range(pp):
+        if vs:
+            break
+        vs = [(k, f'stage {s}: {t}') for k, t in
+              check(cfg, stage_view(cfg, w, s), stats)]
+    return vs
+
+
 def case(part, item):
     cfg, snames = item
     name = name_of(cfg)
@@ -119,13 +224,17 @@ def case(part, item):
             c = dict(cfg)
             if tmp:
                 c['ckpt_dir'] = tmp + '/factors'
-            w = simdist.run_world(cfg['dp'] * cfg['mp'],
-                                  G.make_program(c), sname)
+            nranks = cfg['dp'] * cfg['mp'] * cfg.get('pp', 1)
+            if cfg['kfac'].get('factor_dtype'):
+                cu = dict(c, history=[['train']] * cfg['T'], ckpt_dir=None)
+                wu = simdist.run_world(nranks, G.make_program(cu), sname)
+                c['_uninterrupted'] = wu.results
+            w = simdist.run_world(nranks, G.make_program(c), sname)
             bad = DC.sim_bad(w)
             part.count('executions')
             part.count('transitions', w.stats['points'])
             part.count('states', w.stats['points'] + 1)
-            vs = bad or check(c, w, part)
+            vs = bad or check_world(c, w, part)
         except Exception as e:  # noqa
             vs = [('harness', f'{type(e).__name__}: {e}')]
         finally:
@@ -167,11 +276,14 @@ def explore_case(part, item):
 
 
 def mk(dp, mp, c, T, dirmode, compute, seed, f=1, inv=1, bias=True,
-       gm='gpt2l'):
+       gm='gpt2l', pp=1, fdt=None):
     kk = dict(damping=0.05, factor_decay=0.5, kl_clip=1e30, lr=0.1,
               allreduce_bucket_cap_mb=25.0, factor_update_steps=f,
               inv_update_steps=inv)
-    return {'dp': dp, 'mp': mp, 'bias': bias, 'batch': 2, 'seed': seed,
+    if fdt:
+        kk['factor_dtype'] = fdt
+    return {'dp': dp, 'mp': mp, 'pp': pp, 'bias': bias, 'batch': 2,
+            'seed': seed,
             'kfac': kk, 'loss_mult': 4.0, 'c': c, 'T': T, 'dir': dirmode,
             'gmodel': gm,
             'compute': compute,
@@ -193,6 +305,18 @@ def configs(thorough, seed):
         if (f, inv) != (1, 2):
             out.append(mk(dp, mp, c, T, dirmode, compute, seed, f, inv,
                           bias=(c % 2 == 0), gm='gpt3l'))
+    # factors kept in another dtype than float32 must be saved as held
+    for (dp, mp), c, dirmode, fdt in itertools.product(
+            [(2, 1), (1, 1)], (1, T), (False, True), ('f64', 'bf16')):
+        out.append(mk(dp, mp, c, T, dirmode, True, seed, fdt=fdt))
+    # pipeline stages: every rank's state holds the layers of all stages;
+    # with 3 data-parallel ranks and 2 layers per stage the last rank of
+    # each stage is inverse worker of nothing
+    for (pp, dp, mp), c, dirmode in itertools.product(
+            [(2, 3, 1), (2, 1, 2), (2, 2, 1)] + ([(3, 2, 1), (2, 2, 2)]
+                                                 if thorough else []),
+            (0, 1, T), (False, True)):
+        out.append(mk(dp, mp, c, T, dirmode, True, seed, pp=pp))
     return out
 
 
@@ -213,14 +337,18 @@ def main(run: core.Run):
     items += [('explore', e) for e in exps]
     core.pmap(run, any_case, items, weight=lambda it: (
         3000 * it[1][0]['dp'] * it[1][0]['mp'] if it[0] == 'explore'
-        else (it[1][0]['dp'] * it[1][0]['mp']) ** 2))
+        else (it[1][0]['dp'] * it[1][0]['mp'] * it[1][0].get('pp', 1)) ** 2))
     run.c['evaluations'] = run.c.get('executions', 0)
     run.c['distinct_nontrivial'] = len(run.distinct.get('nontrivial', ()))
     run.notes['configurations'] = len(cfgs)
     run.rule = (
         '(data, model) in {(1,1),(2,1),(1,2),(2,2)} x EVERY step boundary c '
         'of a T-step run x {in-memory, directory} checkpointing x '
-        'compute_inverses x interval pairs; at c all ranks call '
+        'compute_inverses x interval pairs, plus float64 / bfloat16 factors '
+        'and pipeline x data x model in {(2,3,1),(2,1,2),(2,2,1)} (each stage '
+        'an independent replica under its own layer names; every rank must '
+        'save the layers of all stages, each stage is then checked like a '
+        'pipe=1 world); at c all ranks call '
         'state_dict(), the harness barriers, fresh models + preconditioners '
         'load the state, training continues; saved layers (or files) must '
         'be bit-equal to the factors held by each layer\'s inverse worker on '
